@@ -102,6 +102,58 @@ def run_selftest(prop, repo='/repo', jobs=None):
     return results
 
 
+def _mech_job(args):
+    from . import cli
+    from .renamer import transform
+    prop, repo, rel, qual, kind = args
+    src_text = (pathlib.Path(repo) / rel).read_text()
+    try:
+        new = transform(src_text, qual, kind)
+    except Exception:
+        new = None
+    if new is None:
+        return None
+    code, ctx, findings = cli.run(prop, 'quick', repo, overrides={rel: new}, write=False, quiet=True)
+    if code == 0:
+        return dict(name='%s:%s:%s' % (kind, rel, qual), status='silent')
+    return dict(name='%s:%s:%s' % (kind, rel, qual), status='FALSE-ALARM' if code == 1 else 'analysis-error',
+                fired=sorted({f['rule'] for f in findings}) or [core.LAST_ERROR[-200:]])
+
+
+def run_mechanical(prop, repo='/repo', jobs=None):
+    """Mechanical behaviour-preserving rewrites of every function in the property's anchored Python files (rename all
+    locals; flip every comparison; exchange if/else branches under the negated test): the check must stay silent."""
+    import ast as _ast
+    import json
+    props = {json.loads(l)['id']: json.loads(l) for l in open(core.VERIF / 'properties.jsonl')}
+    files = [f for f in props[prop]['anchors'].get('files', []) if f.endswith('.py')]
+    todo = []
+    for rel in files:
+        p = pathlib.Path(repo) / rel
+        if not p.exists():
+            continue
+        try:
+            tree = _ast.parse(p.read_text())
+        except SyntaxError:
+            continue
+        for n in tree.body:
+            if isinstance(n, _ast.FunctionDef):
+                quals = [n.name]
+            elif isinstance(n, _ast.ClassDef):
+                quals = [n.name + '.' + m.name for m in n.body if isinstance(m, _ast.FunctionDef)]
+            else:
+                quals = []
+            for q in quals:
+                for kind in ('rename', 'flipcmp', 'swapif'):
+                    todo.append((prop, str(repo), rel, q, kind))
+    out = []
+    with cf.ProcessPoolExecutor(max_workers=jobs or min(16, os.cpu_count() or 4)) as ex:
+        for r in ex.map(_mech_job, todo, chunksize=4):
+            if r:
+                out.append(r)
+    return out
+
+
 def summarise(results):
     out = {}
     for r in results:
